@@ -96,6 +96,7 @@ EXTRA = [('came', ['/came/from/1', '', '0', ' ']),             # what the applic
          ('mixed', [False, True]),
          ('rcpt2', ['same', 'foreign-first', 'foreign-last']),
          ('unsol_spelling', ['bool', 'str']),                    # allow_unsolicited written as a Python bool or as the string "true" / "false" (JSON / YAML style configuration)
+         ('dest_empty', ['no', 'yes']),                          # the Destination attribute is there with an empty value (present, and no endpoint of the SP)
          ('aud_empty', ['no', 'alone', 'beside-me'])]            # an AudienceRestriction that names nobody (alone, or next to one naming the SP)  # a further bearer confirmation whose Recipient differs from the row's (own endpoint vs foreign)                               # a conformant EncryptedAssertion rides along; the row's conditions sit in a plain Assertion next to it
 
 
@@ -125,7 +126,9 @@ def judge(row):
             reasons.append('InResponseTo does not identify an outstanding request')
         if row['scd'] not in ('match', 'absent'):
             reasons.append('a bearer confirmation names a different request')
-    if browser and row['dest'] in ('own-other-binding', 'foreign'):
+    if browser and row.get('dest_empty', 'no') == 'yes':
+        reasons.append('Destination is present (with an empty value) and is no endpoint of the SP')
+    elif browser and row['dest'] in ('own-other-binding', 'foreign'):
         dest = {'own-other-binding': ACS['redirect' if row['binding'] == 'post' else 'post'], 'foreign': 'https://evil.example.net/acs'}[row['dest']]
         if row['regex'] == 'match' and dest.startswith('https://sp.verif.example/'):
             pass    # matches the configured pattern
@@ -137,7 +140,7 @@ def judge(row):
         reasons.append('Recipient is foreign although conversation info was supplied')
     if reasons:
         return 'reject', reasons
-    ok = (row.get('aud_empty', 'no') == 'no' and row.get('acs_cfg', 'all') == 'all' and row.get('entry', 'authn') == 'authn' and not row.get('mixed') and row['irt'] == 'match' and row['scd'] == 'match' and row['dest'] in ('own', 'absent') and row['aud'] in ('me', 'none', 'me+other-one', 'no-conditions')
+    ok = (row.get('aud_empty', 'no') == 'no' and row.get('dest_empty', 'no') == 'no' and row.get('acs_cfg', 'all') == 'all' and row.get('entry', 'authn') == 'authn' and not row.get('mixed') and row['irt'] == 'match' and row['scd'] == 'match' and row['dest'] in ('own', 'absent') and row['aud'] in ('me', 'none', 'me+other-one', 'no-conditions')
           and row['rcpt'] in ('endpoint', 'entity') and row['regex'] in ('unset', 'match') and row.get('rcpt2', 'same') == 'same')
     if ok:
         return 'accept', []
@@ -187,6 +190,8 @@ def run(row):
         confs = [extra] + confs if row['rcpt2'] == 'foreign-first' else confs + [extra]
     a['subject']['confirmations'] = confs
     r['destination'] = {'own': acs, 'own-other-binding': ACS['redirect' if row['binding'] == 'post' else 'post'], 'foreign': 'https://evil.example.net/acs', 'absent': None}[row['dest']]
+    if row.get('dest_empty', 'no') == 'yes':
+        r['destination'] = ''
     if row['aud'] == 'no-conditions':
         a['conditions'] = None
     else:
